@@ -31,9 +31,9 @@ def features(shape, depth=0, acc=None):
     return acc
 
 
-def evaluate(ast, files=None):
+def evaluate(ast, files=None, minparen=False):
     """Run the AST on the model and on the implementation.  -> (viol-kind or None, what, detail, info)"""
-    src = refint.program(ast)
+    src = refint.program(ast, minparen=minparen)
     it = refint.Interp()
     try:
         ok, failure = it.run(ast)
@@ -201,10 +201,11 @@ class C01(Check):
     def layers(self, tier):
         if tier == "quick":
             return [("L0-depth<=2-default", L0(2)), ("L0b-depth<=2-module+recursion", L0b()),
+                    ("Lp-depth<=1-single-deviation-minimal-parentheses", L1(1, ("fn~min",))),
                     ("L2-spines<=4", L2(4)), ("L3q-pairs-of-compounds", L3q()),
                     ("L1-depth<=2-single-deviation(no call/store/defcall leaves)", L1(2, skip=("call", "store", "defcall"), core_conds_beyond_depth1=True))]
         return [("L0-depth<=3-default", L0(3)), ("L0b-depth<=2-module+recursion", L0b()),
-                ("L1-depth<=2-single-deviation", L1(2, ("fn", "module", "rec"))), ("L3-pairs", L3()),
+                ("L1-depth<=2-single-deviation", L1(2, ("fn", "module", "rec", "fn~min"))), ("L3-pairs", L3()),
                 ("L2-spines<=5", L2(5)), ("L6-long-sequences", L6_long()), ("L5a-depth<=2-double-deviation", L5_double(2)),
                 ("L5b-depth<=3-single-deviation", L1(3)), ("L4-depth<=4-default", L0(4))]
 
@@ -214,7 +215,7 @@ class C01(Check):
     def run_case(self, case):
         variant, shape = case
         ast = cfgen.function_program(shape, variant)
-        kind, what, detail, info = evaluate(ast)
+        kind, what, detail, info = evaluate(ast, minparen=variant.endswith("~min"))
         feats = features(shape)
         if kind == "skip":
             return {"outcome": "skipped-step-limit", "nontrivial": False}
@@ -231,7 +232,7 @@ class C01(Check):
     def finish(self, stats, tier):
         errs = []
         for t in ["store", "defcall", "break", "continue", "return", "fault-div", "fault-assert" if tier == "thorough" else "fault-div", "elif",
-                  "while", "from", "collide@nested", "collide@top", "anon@nested", "step", "step-expr", "step-call", "bounds-expr", "through", "module", "rec"]:
+                  "while", "from", "fn~min", "collide@nested", "collide@top", "anon@nested", "step", "step-expr", "step-call", "bounds-expr", "through", "module", "rec"]:
             if not stats["tags"].get(t):
                 errs.append(f"vacuity: construct {t} never explored")
         ok = stats["evaluations"] - stats["outcomes"].get("skipped-step-limit", 0)
